@@ -466,4 +466,7 @@ def run(ctx):
     # caller-supplied mappings (and the auxv values that select the main module) are what the caller configured, in every dump (same rule instance as C19/config-preserved)
     from rules import c19 as _c19
     _c19.rule_config_preserved(ctx, R="C08/options-kept", only=("user_mapping_list", "direct_auxv_dump_info"))
+    # the stream is attempted in every dump: its writer is on every success path of generate_dump (same rule instance as C01/every-stream-attempted)
+    from rules import c01 as _c01
+    _c01.rule_stream_attempted(ctx, R="C08/stream-attempted", only=("mappings::write",))
 
